@@ -251,6 +251,10 @@ func fzLevelA(r *rand.Rand, n int) []*fzCase {
 			c.positioned = pos
 			c.feat("notation", name)
 		}
+		// ":reverse" conflicts with additional arguments; the tool may then blame the method itself
+		if strings.Contains(c.class, "reverse") && strings.Contains(c.tsig, ", int") {
+			c.tsig = inj(c.tsig)
+		}
 		out = append(out, c)
 	}
 	return out
